@@ -89,6 +89,9 @@ func Facts10(f *hc.Facts) {
 	}
 	f.Raw("/-- Error exits of exchange.ClientExchange.Run, in source order: (init / `case`, condition / case type, error). -/")
 	f.Raw("def clientChecks : List (String × String × String) := [\n" + strings.Join(rows, ",\n") + "]")
+	ProgramFacts(f, "client", "ClientExchange.Run")
+	DefFacts(f, "client", "ClientExchange.Run", []string{"nonce", "serverNonce", "pq", "pqMax", "pBytes", "qBytes", "newNonce", "key",
+		"dhPrime", "g", "gA", "randMax", "bParam", "gB", "authKey", "nonceHash1", "serverSalt", "authKeyID", "sessionID"})
 	f.Raw("/-- The exits that test the peer's data (sub-list of `clientChecks`, same order). -/")
 	f.Raw("def clientGuards : List (String × String × String) := [\n" + strings.Join(guards, ",\n") + "]")
 }
